@@ -29,6 +29,7 @@ type Run struct {
 	Samples []any
 	Notes   []string
 	stats   map[string]int
+	alias   map[string]string // rule renaming for checks shared between properties
 }
 
 func (r *Run) pos(p token.Pos) string {
@@ -39,6 +40,9 @@ func (r *Run) pos(p token.Pos) string {
 }
 
 func (r *Run) add(rule, construct string, p token.Pos, status, detail string) {
+	if a, ok := r.alias[rule]; ok {
+		rule = a
+	}
 	if !strings.HasPrefix(rule, r.Prop) {
 		rule = r.Prop + "." + rule
 	}
